@@ -30,9 +30,19 @@ def run_into(rep, tier, prop, focus=None, budget=None, main_sim=None):
   hx = tlc.run('GinDynReg_Export', 'GinDynReg_Export_hist.cfg', workers=1, timeout=900)
   rep.add_tlc('GinDynReg_Export_hist(every file of the history family after every earlier file, with the specification result)', hx, exhaustive=True)
   hist = [c for c in _cases(hx) if c['prev']]
+  sib = []
+  if prop == 'C19':
+    sx = tlc.run('GinDynReg_Export', 'GinDynReg_Export_sib.cfg', workers=1, timeout=900)
+    rep.add_tlc('GinDynReg_Export_sib(every file of the sibling-module family, with the specification result)', sx, exhaustive=True)
+    if sx.violation:
+      raise tlc.TLCError('design-level violation in the sibling family: %s' % sx.violation)
+    # applied bindings after at least two imports: where the import a name came from matters
+    sib = [c for c in _cases(sx) if c['status'] == 'ok' and c['cfg'] and sum(1 for x in c['doc'] if x['t'] == 'import') >= 2]
+    for c in sib:
+      c['family'] = 'sib'
   cases = _cases(ex)
   seen, chosen = set(), []
-  for c in hist + cases:
+  for c in sib + hist + cases:
     k = core.jdump([c['doc'], c['skip'], c.get('prev')])
     if k in seen or not c['doc']:
       continue
@@ -45,7 +55,11 @@ def run_into(rep, tier, prop, focus=None, budget=None, main_sim=None):
   budget = budget or (600 if tier == 'quick' else 8000)
   # a third of the budget for the history family
   h = [c for c in chosen if c.get('prev')][:budget // 3]
-  rest = [c for c in chosen if not c.get('prev')][:budget - len(h)]
+  sb = [c for c in chosen if c.get('family') == 'sib']
+  import random
+  random.Random(rep.seed + 9).shuffle(sb)
+  h = h + sb[:budget // 4]
+  rest = [c for c in chosen if not c.get('prev') and c.get('family') != 'sib'][:budget - len(h)]
   for c in h + rest:
     rep.evaluations += 1
     rep.behaviours_replayed += 1
